@@ -199,6 +199,12 @@ Theorem c17_pool_owns_its_objects : forall ops modes cap o j, cops_ok (length mo
 Proof. exact (fun ops modes cap o j H => pc_pool_owns _ o j (pc_inv ops modes cap H)). Qed.
 Print Assumptions c17_pool_owns_its_objects.
 
+(* moving a pool (move construction / assignment) transfers everything: free lists, handles, nothing destroyed or lost *)
+Theorem c17_pool_move_transfers_everything : forall s j, let s' := cstep s (CMovePool j) in
+  cpools s' = cpools s /\ hands s' = hands s /\ cdestroyed s' = cdestroyed s /\ cleaked s' = cleaked s /\ cfresh s' = cfresh s.
+Proof. exact (fun s j => conj eq_refl (conj eq_refl (conj eq_refl (conj eq_refl eq_refl)))). Qed.
+Print Assumptions c17_pool_move_transfers_everything.
+
 (* ---- non-vacuity ---- *)
 Example c17_reach_example : exists s, Reach 2 0 ex_progs s /\ quiescent s = true /\ all_done s = true /\
   tape_pages (tape s) <> [] /\ returned s <> [] /\ all_held s <> [].
